@@ -342,3 +342,34 @@ def point_text(p):
     if isinstance(p, dict):
         return "Point(" + ", ".join(f"{k}={_num_text(v)}" for k, v in p.items()) + ")"
     return _num_text(p)
+
+
+# ---------------------------------------------------------------------------------------------
+# positions
+
+def paths(m, limit=400):
+    """All child-index paths (tuples) of the expanded tree, pre-order, at most `limit`."""
+    out = []
+
+    def go(x, p):
+        if len(out) >= limit:
+            return
+        out.append(p)
+        for i, c in enumerate(children(x)):
+            go(c, p + (i,))
+    go(m, ())
+    return out
+
+
+def get(m, path):
+    for i in path:
+        m = children(m)[i]
+    return m
+
+
+def replace(m, path, new):
+    if not path:
+        return new
+    cs = list(children(m))
+    cs[path[0]] = replace(cs[path[0]], path[1:], new)
+    return with_children(m, cs)
